@@ -20,7 +20,7 @@ import time as _time
 from sim import core
 from sim import requests as R
 
-TINY = ["mass_p1_interval", "laplace_p1_tri_coeff", "expr_p1_tri_2pts", "two_forms_tri"]
+TINY = ["mass_p1_interval", "laplace_p1_tri_coeff", "expr_p1_tri_2pts", "two_forms_tri", "two_forms_tri_rev"]
 JIT_KW = {"cffi_extra_compile_args": ["-O0"]}
 DISK_FAULTS = ("marker-enospc", "lock-eacces")
 _PID_RE = re.compile(r"\.~\d+")
@@ -609,6 +609,8 @@ class Sim:
             rec["tb"] = out.get("tb")
         # H-FAIL
         failing = cur["faulted"] & {"codegen-fail", "cc-fail", "ld-fail"}
+        if "bad-library" in cur["faulted"] and cur.get("role") == "builder":
+            failing = failing | {"bad-library"}  # only a request that actually links can fail by it
         if failing and out["result"] != "raised":
             self.violate("H-FAIL", f"process {p.idx}: {sorted(failing)} injected but the request returned")
         # I-GLOBAL.  An interrupted build is a failed build in a process that lives on, so it is
@@ -692,8 +694,21 @@ class Sim:
                      or (gh["warm"] and gh["build"] == "complete"))
         self.now = max(self.now, p.ready)
         self.log.add(round(self.now, 6), p.idx, "request", rq["req"], rq["timeout"])
+        kwargs = None
+        for f in self.faults:
+            # a request that fails by its own input: a library that does not exist makes the real
+            # linker fail (cffi_libraries is not part of the module name, so the request shares
+            # its module with the good requests)
+            if f["kind"] == "bad-library" and not f["fired"] and f["proc"] == p.name \
+                    and f.get("req_index", 0) == p.req_index:
+                f["fired"] = True
+                self.bump("fault_fired_bad-library")
+                p.cur["faulted"].add("bad-library")
+                p.faulted.add("bad-library")
+                kwargs = {"cffi_libraries": ["jitsim_library_that_does_not_exist"]}
+                self.log.add(round(self.now, 6), p.idx, "FAULT:bad-library")
         self.send(p, {"cmd": "request", "req": rq["req"], "timeout": rq["timeout"], "now": self.now,
-                      "cache_arg": self.cache_arg(p)})
+                      "cache_arg": self.cache_arg(p), "kwargs": kwargs})
         msg = self.recv(p)
         if msg is None:
             self.reap(p)
